@@ -345,15 +345,8 @@ def nauty(rep):
     for node, msg in leaks + unordered:
         rep.ob("O8.4", "R12", bl, False, node, msg, facts, node=node)
     ip = rep.f(NA, N + "_initial_partition")
-    rets = returns_of(ip.node)
-    ok = False
-    if rets:
-        # return [sorted(cell) for _, cell in sorted(<buckets>.items())] where <buckets> is keyed by the attribute tuple
-        mm = pmatch("[sorted($c) for $u, $c in sorted($b.items())]", rets[-1].value) or pmatch("[sorted($c) for $c in (v for _, v in sorted($b.items()))]", rets[-1].value)
-        if mm:
-            fills = pfind("$b.setdefault($k, []).append($v)", ip.node, {"b": mm["b"]})
-            ok = bool(fills) and "self.node_attrs" in norm(origin(local_defs(ip.node), ast.Name(id=fills[0][1]["k"], ctx=ast.Load())))
-    rep.ob("O8.4", "R12", ip, ok, rets[-1] if rets else "return", "initial cells are ordered by their attribute key (not by insertion order)")
+    ok, construct = C.initial_partition_sorted(ip, "node_attrs")
+    rep.ob("O8.4", "R12", ip, ok, construct, "initial cells are ordered by their attribute key (not by insertion order)")
     # label coverage
     shape_obs = C.label_builder_shape(bl, "node_attrs", "edge_attrs", directed=False)
     for tag, ok, construct, what, node in shape_obs:
@@ -416,14 +409,8 @@ def nauty(rep):
                    {"covered": s.covered}, node=s.store)
         for kind, node, msg in s.problems:
             rep.ob("O8.4", "R1", rf, False, f"[{kind}] {norm(node)[:50]}", msg, node=node)
-    # split cells are emitted in signature order: the grouping dict is filled by $g.setdefault(sig, []).append(v) and iterated via sorted($g)
-    groups = pfind("$g.setdefault($s, []).append($v)", rf.node)
-    gnames = {b["g"] for _, b in groups}
-    srt = [l for l in walk_local(rf.node) if isinstance(l, ast.For) and isinstance(l.iter, ast.Call) and call_name(l.iter) == "sorted"
-           and l.iter.args and norm(l.iter.args[0]).split(".")[0] in gnames]
-    unsorted_iter = [l for l in walk_local(rf.node) if isinstance(l, ast.For) and norm(l.iter).split(".")[0].split("(")[0] in gnames]
-    rep.ob("O8.4", "R12", rf, len(gnames) == 1 and len(srt) == 1 and _total_key(srt[0].iter) and not unsorted_iter,
-           srt[0].iter if srt else "sorted(<signature groups>)", "split cells are ordered by their full signatures")
+    ok, construct, _g = C.split_sorted(rf)
+    rep.ob("O8.4", "R12", rf, ok, construct, "split cells are ordered by their full signatures")
     uo = rep.f(NA, N + "compute_orbits.<locals>.union_orbits")
     for ok_, msg_, facts_ in check_merge(uo.node):
         rep.ob("O8.4", "R12", uo, ok_, msg_, "merging two orbit slots keeps orbit_map exact (union at the surviving slot, members of the emptied slot re-pointed)", facts_, node=uo.node)
